@@ -589,11 +589,14 @@ struct ForestSetup {
 fn forest_setup(plan: &Plan) -> Result<ForestSetup, String> {
     let commit = gen::commit_of_plan(plan, None, true).map_err(|e| format!("type:{e}"))?;
     let text = Forest::from_program(commit).string_serialize();
+    if std::env::var("C12_DEBUG").is_ok() {
+        eprintln!("TEXT:\n{text}");
+    }
     let forest = Forest::parse::<Elements>(&text).map_err(|e| format!("parse:{e}"))?;
     let main = forest.roots().get("main").ok_or("parse:no main")?.clone();
     let names = align_named(plan, &main).map_err(|e| format!("align:{e}"))?;
     if std::env::var("C12_DEBUG").is_ok() {
-        eprintln!("TEXT:\n{text}\nNAMES: {:?}\nREPARSED:\n{}", names, forest.string_serialize());
+        eprintln!("NAMES: {:?}\nREPARSED:\n{}", names, forest.string_serialize());
     }
     Ok(ForestSetup { forest, names })
 }
@@ -631,7 +634,12 @@ fn route_d(ctx: &mut Ctx, planw: &Plan, tables: &str, prog: &[u8], wit: &[u8], s
     match codec::decode_redeem(prog, wit) {
         Dec::Panic(p) => ctx.fail("panic-decode", &case, &p),
         Dec::Err(e) => {
-            ctx.count(&format!("reach:D:{stream_kind}:err"));
+            if stream_kind == "random" {
+                ctx.count("reach:D:random");
+                ctx.count("cross:D:random:err");
+            } else {
+                ctx.count(&format!("reach:D:{stream_kind}:err"));
+            }
             if codec::err_kind(&e) == "sharing" {
                 // two witness nodes became equal: the sharing rule (C01/C02) is not part of this model
                 ctx.count("model-skipped:D:sharing-not-maximal");
@@ -640,7 +648,12 @@ fn route_d(ctx: &mut Ctx, planw: &Plan, tables: &str, prog: &[u8], wit: &[u8], s
             }
         }
         Dec::Ok(red) => {
-            ctx.count(&format!("reach:D:{stream_kind}:ok"));
+            if stream_kind == "random" {
+                ctx.count("reach:D:random");
+                ctx.count("cross:D:random:ok");
+            } else {
+                ctx.count(&format!("reach:D:{stream_kind}:ok"));
+            }
             let mut ans = String::from("ok");
             for d in red.as_ref().post_order_iter::<InternalSharing>() {
                 if let Some(t) = w_token(d.index, d.node) {
@@ -910,7 +923,13 @@ pub fn one(ctx: &mut Ctx, c: &Case) -> bool {
     } else {
         match catch(|| forest_setup(plan)) {
             Err(p) => ctx.fail("panic-forest", &line_u, &p),
-            Ok(Err(e)) => ctx.count(&format!("text-route-skipped:{}", e.split(':').next().unwrap_or("?"))),
+            Ok(Err(e)) => {
+                let k = e.split(':').next().unwrap_or("?").to_string();
+                if ctx.get_count(&format!("text-route-skipped:{k}")) < 2 {
+                    ctx.note(&format!("text route skipped ({}) for {}", &e[..e.len().min(300)], plan.text()));
+                }
+                ctx.count(&format!("text-route-skipped:{k}"));
+            }
             Ok(Ok(fs)) => {
                 let mut map: HashMap<Arc<str>, Value> = HashMap::new();
                 let mut ntoks = String::new();
